@@ -200,6 +200,35 @@ func genWireLimits(repo string) (string, error) {
 		return "", err
 	}
 	def("maxSubitems", v)
+	def("scopeCalledByEntry", int64(transaction.CalledByEntry))
+	def("scopeCustomContracts", int64(transaction.CustomContracts))
+	def("scopeCustomGroups", int64(transaction.CustomGroups))
+	def("scopeRules", int64(transaction.Rules))
+	def("scopeGlobal", int64(transaction.Global))
+	def("attrHighPriority", int64(transaction.HighPriority))
+	def("attrOracleResponse", int64(transaction.OracleResponseT))
+	def("attrNotValidBefore", int64(transaction.NotValidBeforeT))
+	def("attrConflicts", int64(transaction.ConflictsT))
+	def("attrNotaryAssisted", int64(transaction.NotaryAssistedT))
+	def("condBoolean", int64(transaction.WitnessBoolean))
+	def("condNot", int64(transaction.WitnessNot))
+	def("condAnd", int64(transaction.WitnessAnd))
+	def("condOr", int64(transaction.WitnessOr))
+	def("condScriptHash", int64(transaction.WitnessScriptHash))
+	def("condGroup", int64(transaction.WitnessGroup))
+	def("condCalledByEntry", int64(transaction.WitnessCalledByEntry))
+	def("condCalledByContract", int64(transaction.WitnessCalledByContract))
+	def("condCalledByGroup", int64(transaction.WitnessCalledByGroup))
+	// the oracle response codes OracleResponseCode.IsValid accepts
+	{
+		var codes []string
+		for c := 0; c < 256; c++ {
+			if transaction.OracleResponseCode(c).IsValid() {
+				codes = append(codes, strconv.Itoa(c))
+			}
+		}
+		fmt.Fprintf(&b, "def oracleCodes : List Nat := [%s]\n", strings.Join(codes, ", "))
+	}
 	// block
 	def("maxTransactionsPerBlock", block.MaxTransactionsPerBlock)
 	// stack items
